@@ -133,6 +133,14 @@ claim("C15", "MIR guard-span analysis (single exclusive acquisition, both operat
       "behind an async RwLock and no API returns a guard.",
       "freshness of random key ids; signature/verification pairing (cryptography); actual thread schedules.", "DESIGN.md §7 C15")
 
+claim("C20", "HIR argument provenance + MIR success-edge dominance of the dispatch + structural-identity pairing inside each future + sibling structural-signature comparison + type-shape (no interior mutability, sealed trait)",
+      "Decides for all handler tables/DID lists: resolve looks the handler up under did.method() in self.command_map, applies it — only on the Some edge of that lookup — to did.as_str(), and reports "
+      "UnsupportedMethodError otherwise; attach_handler registers Command::new(handler) under the given method for both command kinds, attach_did_jwk_handler under DIDJwk::METHOD with expand_did_jwk; "
+      "resolve_multiple de-duplicates through a HashSet, each pushed async block resolves its own loop variable with self.resolve and pairs the result with that same DID (no positional zip), results go "
+      "through try_collect into a HashMap; Resolver has no interior mutability and resolve takes &self; the two Command constructors are structurally identical (parse with D::try_from → DIDParsingError, "
+      "handler(parsed DID), Into/HandlerError) and apply calls the stored function; the Command trait is sealed; did:jwk expansion uses exactly did.jwk() with fragment \"0\".",
+      "actual interleavings of the polled futures; handler determinism.", "DESIGN.md §7 C20")
+
 for _p, _r in {
     "C01": "rules not yet implemented in this revision (planned, DESIGN §7)", "C02": "rules not yet implemented in this revision",
     "C03": "rules not yet implemented in this revision", "C04": "rules not yet implemented in this revision",
